@@ -585,7 +585,7 @@ func splitTop(s string) []string {
 	return out
 }
 
-var funcKeyRe = regexp.MustCompile(`^(?:\(\s*\w*\s*(\*?)\s*([\w.]+)\s*\)\s*)?([\w$]+)$`)
+var funcKeyRe = regexp.MustCompile(`^(?:\(\s*\w*\s*(\*?)\s*([\w.]+)\s*\)\s*)?([\w$#]+)$`)
 
 // parseFuncKey turns "(b *Bounds) Extend" into "(*Bounds).Extend".
 func parseFuncKey(s string) (string, error) {
